@@ -9,6 +9,26 @@ BASELINE = ("cd /repo && cargo nextest run --workspace --no-fail-fast --test-thr
             "|| cargo test --workspace --no-fail-fast --offline")
 
 CHECKS = {
+    'C12': dict(technique="Coq proof (lock-step induction over the renderer's stack machine) that the wide renderer on an instance of a symbolic document emits the instances of the symbolic renderer's events + per-case certified checks (extracted sym_of / inst / render_wide) that the implementation's documents for the units 1,2,3,4,8 are instances of one symbolic document and that its rendering equals the wide renderer + line-by-line oracle",
+        text="Proof with a known finding. Proved for every symbolic document D and every unit u (C12_symbolic_indentation): rendering inst u D when nothing wraps emits the same text atoms whatever the unit and, after every layout line break, a*u+b blanks with (a, b) independent of u; b = 0 gives a whole multiple of the unit (C12_layout_line_is_multiple), b <> 0 arises only under Align (comment continuation lines), and lines inside a text atom are not layout lines: the property's exemptions. sym_of is proved sound (C12_sym_of_sound). Tie, on every case: K2-scale - the documents the implementation builds for tab_spaces 1,2,3,4,8 are inst u of ONE symbolic document computed from the units 2 and 3 (so a literal 2, a forgotten nest or tab_spaces in a width computation breaks the obligation); K3-wide - the implementation's rendering at width 10^6 equals the model's wide renderer on its document. Oracle: the raw outputs of the five units, line by line against the symbolic line table. Known finding F7 (stray blank after a line break inside a flow), by class.",
+        note='Trusted: Coq kernel (no axioms); extraction; the Doc dump through format_source_inspect (public pretty::Doc enum); that the converter is parametric in the unit is CHECKED per case, not proved over the converter model.',
+        design='§4 C12'),
+    'C13': dict(technique='Coq proofs (list/byte-offset arithmetic, structural induction on the tree) over a Gallina model of partial.rs and the utils.rs helpers, reusing the converter model + differential correspondence K6 (class, returned range, bytes) + splice oracle',
+        text='Partial proof. Proved for every tree/text: for any request a <= b whose ends are on char boundaries or past the end, clamping and trimming never fail and yield a sub-range on char boundaries holding exactly the trimmed text (C13_range_arithmetic_total); the node found covers the range, is a Markup/Expr/Pattern node of the tree on node boundaries (C13_cover_sound); the indentation lookup at a node start never fails (C13_indent_lookup_total); a successful call returns the byte range of a non-erroneous covering node containing the trimmed request (C13_result_is_covering_node); no/erroneous covering node is refused (C13_refuses_erroneous). NOT proved: the spliced text re-parses to an equivalent tree (parser; oracle on every case) and converter Panic sites (C05). Tie K6: format_source_range == Partial.format_range on thousands of (source, range) pairs incl. ranges past the end and erroneous sources. Repairs needed for the property to hold: 246cff8 (clamp before trim), b96d67a (indent at node start), f233c9f (first-line indentation), b3412af (item body nesting).',
+        note='Trusted: Coq kernel (no axioms); Rust str slicing semantics restated as split_at_byte/slice; LinkedNode offsets restated as prefix sums (A3, checked by K6).',
+        design='§4 C13'),
+    'C17': dict(technique="Coq proof of audit obligations over gen/StateAudit.v, REGENERATED from typstyle-core's sources on every run (translator), and of history/order independence of the library state machine over the audited state + K9 schedule testing (16 threads, shuffled orders, separate processes)",
+        text="Partial (structural theorem + audit + schedules). C17_audit_clean: typstyle-core has no static/thread_local/lazy/once cell, no RefCell/Mutex/atomic field, no unsafe, no environment/time/randomness/thread-identity/file access, and uses its hash containers only through insert/get/entry/contains (never an order-exposing method); the only state is in the cfg-guarded verification hooks - the lists are regenerated from the Rust sources on every run and proved empty by reflexivity, so adding a cache, a counter or an iteration over a HashMap breaks the proof obligation itself. C17_history_independent / C17_order_independent: with that state (unit), every call in every history and interleaving returns format_source's value. K9: the same (text, config) set formatted sequentially, from 16 threads in shuffled orders and in three processes must be byte-identical (and equals the model, K5).",
+        note="Trusted: Coq kernel; the regex translator gen_audit.py (reports by shape; state hidden behind a macro or inside a dependency is outside its reach); thread scheduling, allocator and dependencies' globals are runtime: K9 is testing.",
+        design='§4 C17'),
+    'C18': dict(technique="Coq proofs of a cost calculus for the counter monad and of 'at most once per child' for the flow/list/plain stylists over the converter model whose counter IS the formatter's own definition + K7: exact equality of the implementation's hooked counter with the model's on every case + growth oracle on nested families",
+        text="Partial proof. The model's monad carries the conversion counter, bumped at exactly the four hooked entry points, so Cost and the converter are one definition. Proved: costs add along bind and folds (C18_costs_bind, C18_costs_fold); each stylist hands every child to the item converter at most once, whatever the converter (C18_flow_once_per_child, C18_list_once_per_child, C18_plain_once_per_child). Stated, not yet proved over all converters: C18_full (counter <= 3 * nodes). Tie K7: the implementation's counter must EQUAL the model's on every case (a 'convert, fall back and convert again' edit shows on the first nested input). Oracle: conversions per syntax node (<= 3; measured max 1.0) over all streams and nested families at doubling depths.",
+        note='Trusted: Coq kernel; the four cfg-guarded bump hooks (MANIFEST.hooks); rendering cost (pretty) is outside the statement as in the property.',
+        design='§4 C18'),
+    'C19': dict(technique="Coq proofs (Permutation/StronglySorted of the model's stable insertion sort; gate lemmas) over the converter model's import_items_order + K5 with the flag on and off + item-sequence oracle",
+        text="Proof of the ordering core. import_items_order is the order in which convert_import_items hands the item nodes to the list stylist; the flag occurs nowhere else in the converter model. Proved: off keeps source order (C19_off_keeps_source_order); on yields a permutation (C19_on_is_permutation) that is either the source order or sorted by source text (C19_on_sorted_or_kept); a comment anywhere in the item list, also inside an item, or a name bound twice keeps the order (C19_comment_keeps_order, C19_duplicate_keeps_order); the option defaults to off in Config and in the CLI (C19_default_off, over the regenerated CliGen.v). 'Nothing else differs' is decided by K5 with the flag on and off and by the oracle (item sequences input vs re-parsed output; text outside the item lists equal between on and off). Repair needed: 269647e (comment inside a renamed item).",
+        note="Trusted: Coq kernel; Rust's sort_by_key is stable (any stable sort gives the same list as the model's insertion sort); string order = scalar-value order = UTF-8 byte order.",
+        design='§4 C19'),
     'C01': dict(technique="Coq proofs (structural induction over documents / child lists; renderer refinement for every width) over a hand-written Gallina model of the whole converter pipeline (attr passes, ~60 converters, four stylists, pretty's renderer, post-processing) + generated tables (gen/Tables.v, gen/Kind.v) + differential correspondence of the extracted model with the implementation (document, bytes, counter) on every case + property oracle search",
         text="Partial proof. Proved for all trees/configs/widths over the model: every accepted output is the stripped rendering of the converter's document and the emitted atoms are atoms of that document in document order, a group being flat or broken as a whole (C01_output_atoms_partial, via the renderer refinement theorems render_atoms/render_lay); optional delimiters appear exactly when the body is broken and a flat body stays on one line (C01_optional_paren_sound); markup is re-emitted as its source lines in order (C01_markup_source_lines). NOT proved: token conservation across all converters and the re-parsed half (C01_full is stated over an abstract parser). The model (total by construction, byte-exact against the implementation) is tied to the code by K2/K5/K7 on every case, and the skeleton oracle (re-parse with typst_syntax, compare trees modulo layout) searches for a failing input. Known findings by class: comments inside equations (F10/F13), block comments sharing a line with list items (F15), empty term (F16), multi-line '@typstyle off' regions (F17), exotic trailing blanks (F18).",
         note="Trusted: Coq kernel (closed under the global context, no axioms); extraction (ExtrOcamlBasic only) and the OCaml driver; translators gen_kind/gen_tables/gen_cli; the Rust harness with its oracles. Modelled, not verified: typst-syntax (parser: its trees are the model's input), the `pretty` renderer and unicode-width (restated / harvested, compared on every case). K5 and the oracles are sampled (differential testing).",
